@@ -11,130 +11,167 @@ From Coq Require Import ZArith NArith List Bool.
 From WW Require Import Base.Bytes Base.BytesLit Model.GoUrl Model.Config Proofs.ConfigP.
 Import ListNotations.
 
-(** Main equivalence: the process reaches ListenAndServe iff every typed setting parses and the resolved
-    configuration satisfies the rule set the code implements. *)
-Theorem c20_starts_iff_rules : forall r d,
-  cf_starts r d = true <-> cf_typed_ok r /\ cf_rules_impl (cf_resolve_all r) d.
+(** Main equivalence, for every code variant [v] (lib/code_flags.json: enc_key_strict, wait_nonneg,
+    ingress_pattern_strict): the process reaches ListenAndServe iff every typed setting parses and the resolved
+    configuration satisfies the rule set that variant implements. *)
+Theorem c20_starts_iff_rules : forall v r d,
+  cf_starts v r d = true <-> cf_typed_ok r /\ cf_rules_impl v (cf_resolve_all r) d.
 Proof. exact cf_starts_iff. Qed.
 Print Assumptions c20_starts_iff_rules.
 
 (** The outcome class 0 of [cf_run] (what the correspondence compares with the binary) is exactly [cf_starts]. *)
-Theorem c20_run_zero_iff_starts : forall r d, cf_run r d = 0%Z <-> cf_starts r d = true.
-Proof. intros r d. unfold cf_starts. symmetry. apply Z.eqb_eq. Qed.
+Theorem c20_run_zero_iff_starts : forall v r d, cf_run v r d = 0%Z <-> cf_starts v r d = true.
+Proof. intros v r d. unfold cf_starts. symmetry. apply Z.eqb_eq. Qed.
 Print Assumptions c20_run_zero_iff_starts.
 
-(** Soundness w.r.t. the property text: whatever starts satisfies every documented rule (strict key rule
-    included), unless the supplied key string is blank (non-empty, decodes to zero bytes). *)
+(** THE CURRENT CODE (all three fixes): the process starts iff every typed setting parses and ALL documented rules hold
+    ([cf_rules_doc]: strict key rule, 0 <= wait-before < graceful, ingress paths without route-pattern characters, ...).
+    Both directions without proviso: no "key not blank" hypothesis, no "well-formed route patterns" hypothesis. *)
+Theorem c20_starts_iff_documented_rules : forall r d,
+  cf_starts cf_cur r d = true <-> cf_typed_ok r /\ cf_rules_doc (cf_resolve_all r) d.
+Proof. exact cf_starts_iff_doc. Qed.
+Print Assumptions c20_starts_iff_documented_rules.
+
+(** its two directions, as the property text states them *)
 Theorem c20_starts_only_if_documented_rules : forall r d,
-  cf_starts r d = true -> ~ cf_key_blank (cf_resolve_all r) ->
-  cf_typed_ok r /\ cf_rules_doc (cf_resolve_all r) d.
-Proof. exact cf_starts_sound. Qed.
+  cf_starts cf_cur r d = true -> cf_typed_ok r /\ cf_rules_doc (cf_resolve_all r) d.
+Proof. intros r d. apply cf_starts_iff_doc. Qed.
 Print Assumptions c20_starts_only_if_documented_rules.
 
-(** ... and the hypothesis is needed: a key consisting of one line feed is "supplied", decodes to 0 bits, and the
-    process starts with a random key. *)
+Theorem c20_documented_rules_start : forall r d,
+  cf_typed_ok r -> cf_rules_doc (cf_resolve_all r) d -> cf_starts cf_cur r d = true.
+Proof. intros r d Ht Hr. apply cf_starts_iff_doc. split; assumption. Qed.
+Print Assumptions c20_documented_rules_start.
+
+(** With the strict ingress rule router.New cannot panic: the rule implies well-formed route patterns. *)
+Theorem c20_strict_ingress_no_router_panic : forall v c,
+  cf_v_ingress_strict v = true -> cf_rule_ingress v c -> cf_router c = None.
+Proof. intros v c Hv Hi. apply cf_router_none. exact (cf_strict_routes v c Hv Hi). Qed.
+Print Assumptions c20_strict_ingress_no_router_panic.
+
+(** A non-empty key that decodes to zero bytes (only CR / LF) is refused by the current code. *)
+Theorem c20_blank_key_refused : forall k, k <> [] -> cf_b64_len k = Some 0%N ->
+  cf_key_check cf_cur k = Some cf_E_key_length.
+Proof. exact cf_blank_key_refused. Qed.
+Print Assumptions c20_blank_key_refused.
+
+(** Any variant: what starts satisfies the variant's core rules and the strict key rule unless the key is blank;
+    the variant's core rules + strict key rule + well-formed route patterns start. (The provisos are needed exactly
+    for the old variants, see the refutations below.) *)
+Theorem c20_any_variant_sound : forall v r d,
+  cf_starts v r d = true -> ~ cf_key_blank (cf_resolve_all r) ->
+  cf_typed_ok r /\ cf_rules_core v (cf_resolve_all r) d /\ cf_rule_key_doc (cf_resolve_all r).
+Proof. exact cf_starts_sound. Qed.
+Print Assumptions c20_any_variant_sound.
+
+Theorem c20_any_variant_complete : forall v r d,
+  cf_typed_ok r -> cf_rules_core v (cf_resolve_all r) d -> cf_rule_key_doc (cf_resolve_all r) ->
+  cf_rule_routes (cf_resolve_all r) -> cf_starts v r d = true.
+Proof. exact cf_starts_complete. Qed.
+Print Assumptions c20_any_variant_complete.
+
+(** OLD key variant (fix 9e1f3d0 reverted): a key consisting of one line feed is "supplied", decodes to 0 bits, and the
+    process starts with a random key; the current code answers with the bad-length error. *)
 Theorem c20_blank_key_refuted : exists r d,
-  cf_starts r d = true /\ ~ cf_rule_key_doc (cf_resolve_all r).
+  cf_starts (mk_cf_variant false true true) r d = true /\ ~ cf_rule_key_doc (cf_resolve_all r) /\
+  cf_run cf_cur r d = Zpos cf_E_key_length.
 Proof. exists cf_ex_blank, cf_ex_disc. exact cf_blank_key_refuted. Qed.
 Print Assumptions c20_blank_key_refuted.
 
-(** Completeness w.r.t. the property text: a configuration satisfying all documented rules does start, provided
-    no ingress path is a malformed chi route pattern. *)
-Theorem c20_documented_rules_start : forall r d,
-  cf_typed_ok r -> cf_rules_doc (cf_resolve_all r) d -> cf_rule_routes (cf_resolve_all r) ->
-  cf_starts r d = true.
-Proof. exact cf_starts_complete. Qed.
-Print Assumptions c20_documented_rules_start.
-
-(** ... and the hypothesis is needed: ingress https://app.example.com/x*y satisfies every documented rule, and
-    router.New panics on it. *)
+(** OLD ingress variant (fix 9040a49 reverted): ingress https://app.example.com/x*y satisfied every then-documented rule
+    and router.New panicked on it; the current code refuses it in ParseIngress. *)
 Theorem c20_route_pattern_refuted : exists r d,
-  cf_typed_ok r /\ cf_rules_doc (cf_resolve_all r) d /\ cf_starts r d = false.
+  cf_typed_ok r /\ cf_rules_doc_old (cf_resolve_all r) d /\
+  cf_run (mk_cf_variant true true false) r d = Zpos cf_E_route /\ cf_run cf_cur r d = Zpos cf_E_ing_pattern.
 Proof. exists cf_ex_star, cf_ex_disc. exact cf_route_pattern_refuted. Qed.
 Print Assumptions c20_route_pattern_refuted.
 
-(** Corollary used by C19: a running process has wait-before < graceful. *)
-Theorem c20_starts_periods : forall r d, cf_starts r d = true ->
-  (cf_waitbefore (cf_resolve_all r) < cf_graceful (cf_resolve_all r))%Z.
-Proof. exact cf_starts_periods. Qed.
+(** Corollary used by C19: a running process has 0 <= wait-before < graceful (current code); W < G for any variant. *)
+Theorem c20_starts_periods : forall r d, cf_starts cf_cur r d = true ->
+  (0 <= cf_waitbefore (cf_resolve_all r) < cf_graceful (cf_resolve_all r))%Z.
+Proof. exact cf_starts_periods_cur. Qed.
 Print Assumptions c20_starts_periods.
 
-(** ... but not that the periods are non-negative: graceful 0s with wait-before -1s starts. *)
+Theorem c20_starts_periods_any_variant : forall v r d, cf_starts v r d = true ->
+  (cf_waitbefore (cf_resolve_all r) < cf_graceful (cf_resolve_all r))%Z.
+Proof. exact cf_starts_periods. Qed.
+Print Assumptions c20_starts_periods_any_variant.
+
+(** OLD periods variant (fix 164dd13 reverted): graceful 0s with wait-before -1s started; the current code refuses. *)
 Theorem c20_negative_wait_accepted : exists r d,
-  cf_starts r d = true /\ (cf_waitbefore (cf_resolve_all r) < 0)%Z /\ (cf_graceful (cf_resolve_all r) = 0)%Z.
+  cf_starts (mk_cf_variant true false true) r d = true /\ (cf_waitbefore (cf_resolve_all r) < 0)%Z /\
+  (cf_graceful (cf_resolve_all r) = 0)%Z /\ cf_run cf_cur r d = Zpos cf_E_wait_neg.
 Proof. exists cf_ex_negw, cf_ex_disc. exact cf_negative_wait_accepted. Qed.
 Print Assumptions c20_negative_wait_accepted.
 
 (** Corollary used by C14: insecure cookies only when every ingress is plain-http localhost. *)
-Theorem c20_insecure_only_localhost : forall r d,
-  cf_starts r d = true -> cf_secure (cf_resolve_all r) = false ->
+Theorem c20_insecure_only_localhost : forall v r d,
+  cf_starts v r d = true -> cf_secure (cf_resolve_all r) = false ->
   Forall cf_localhost_http (cf_ingresses (cf_resolve_all r)).
 Proof. exact cf_starts_insecure. Qed.
 Print Assumptions c20_insecure_only_localhost.
 
-(** At least one ingress, every ingress a valid http(s) URL with a host. *)
-Theorem c20_starts_ingress : forall r d, cf_starts r d = true ->
-  cf_ingresses (cf_resolve_all r) <> [] /\ Forall cf_valid_ingress (cf_ingresses (cf_resolve_all r)).
+(** At least one ingress, every ingress a valid http(s) URL with a host (and, current code, a pattern-free path). *)
+Theorem c20_starts_ingress : forall v r d, cf_starts v r d = true ->
+  cf_ingresses (cf_resolve_all r) <> [] /\ Forall (cf_valid_ingress v) (cf_ingresses (cf_resolve_all r)).
 Proof. exact cf_starts_ingress. Qed.
 Print Assumptions c20_starts_ingress.
 
 (** SSO modes need a shared store, a cookie name, and their server-URL (proxy) or domain + default redirect (server). *)
-Theorem c20_starts_sso : forall r d, cf_starts r d = true -> cf_ssoenabled (cf_resolve_all r) = true ->
+Theorem c20_starts_sso : forall v r d, cf_starts v r d = true -> cf_ssoenabled (cf_resolve_all r) = true ->
   let c := cf_resolve_all r in
   (cf_redisaddr c <> [] \/ cf_redisuri c <> []) /\ cf_ssocookie c <> [] /\
   ((cf_ssomode c = cf_lit_proxy /\ cf_is_url (cf_ssoserverurl c)) \/
    (cf_ssomode c = cf_lit_server /\ cf_ssodomain c <> [] /\ cf_is_url (cf_ssoredirect c))).
-Proof. intros r d H He. exact (cf_starts_sso r d H He). Qed.
+Proof. intros v r d H He. exact (cf_starts_sso v r d H He). Qed.
 Print Assumptions c20_starts_sso.
 
 (** Except for an SSO proxy: client id, credentials and discovery URL present; the discovery document supports the
     configured signing algorithm, acr (or its legacy translation) and locale. *)
-Theorem c20_starts_openid : forall r d, cf_starts r d = true -> ~ cf_is_proxy (cf_resolve_all r) ->
+Theorem c20_starts_openid : forall v r d, cf_starts v r d = true -> ~ cf_is_proxy (cf_resolve_all r) ->
   cf_rule_client (cf_resolve_all r) /\ cf_rule_disc (cf_resolve_all r) d.
 Proof. exact cf_starts_openid. Qed.
 Print Assumptions c20_starts_openid.
 
 (** Upstream address parts: both or neither, port in 1..65535. *)
-Theorem c20_starts_upstream : forall r d, cf_starts r d = true ->
+Theorem c20_starts_upstream : forall v r d, cf_starts v r d = true ->
   let c := cf_resolve_all r in
   (cf_upip c = [] /\ cf_upport c = 0%Z) \/ (cf_upip c <> [] /\ (1 <= cf_upport c <= 65535)%Z).
 Proof. exact cf_starts_upstream. Qed.
 Print Assumptions c20_starts_upstream.
 
 (** A malformed typed setting on the effective channel never starts. *)
-Theorem c20_malformed_typed_refused : forall r d,
-  cf_any_flag_bad r = true \/ cf_any_env_bad r = true -> cf_starts r d = false.
+Theorem c20_malformed_typed_refused : forall v r d,
+  cf_any_flag_bad r = true \/ cf_any_env_bad r = true -> cf_starts v r d = false.
 Proof.
-  intros r d H. destruct (cf_starts r d) eqn:E; [|reflexivity].
+  intros v r d H. destruct (cf_starts v r d) eqn:E; [|reflexivity].
   apply cf_starts_iff in E. destruct E as [[H1 H2] _]. destruct H; congruence.
 Qed.
 Print Assumptions c20_malformed_typed_refused.
 
-(** Documentation vs code, provider-specific variables: following docs/configuration.md literally for Azure
-    (AZURE_APP_CLIENT_ID, AZURE_APP_CLIENT_JWK, AZURE_APP_WELL_KNOWN_URL) satisfies every check under the documented
-    resolution, but the binary refuses it ("at least one of client-jwk or client-secret must be set"): the code
-    binds AZURE_APP_JWK. *)
+(** Documentation vs code. docs/configuration.md as it is NOW (AZURE_APP_JWK; idporten default acr idporten-loa-high)
+    describes exactly the code's resolution of every setting, for every raw configuration. (That [cf_docs_now] is what
+    the file says is checked on every run by lib/props/c20.py, which parses the file.) *)
+Theorem c20_docs_resolution_agrees : forall r, cf_resolve_doc cf_docs_now r = cf_resolve_all r.
+Proof. exact cf_docs_now_agree. Qed.
+Print Assumptions c20_docs_resolution_agrees.
+
+(** ... whereas the documentation BEFORE 111edb0 did not: its literal Azure example (AZURE_APP_CLIENT_ID,
+    AZURE_APP_CLIENT_JWK, AZURE_APP_WELL_KNOWN_URL) satisfies every check under its own resolution, but the binary refuses
+    it ("at least one of client-jwk or client-secret must be set"). *)
 Theorem c20_docs_azure_jwk_refuted : exists r d,
-  cf_boot (cf_resolve_doc r) d = None /\ cf_run r d = Zpos cf_E_creds.
+  cf_boot cf_cur (cf_resolve_doc cf_docs_before r) d = None /\ cf_run cf_cur r d = Zpos cf_E_creds.
 Proof. exists cf_ex_azure_docs, cf_ex_disc. exact cf_docs_azure_jwk_refuted. Qed.
 Print Assumptions c20_docs_azure_jwk_refuted.
 
-(** Documentation vs code, idporten default acr: the docs give "Level4", the code "idporten-loa-high"; against a
-    provider that lists only Level3/Level4 the documented default passes and the code's default is refused. *)
+(** ... and before 8ed9a06 the documented idporten default acr was "Level4": against a provider that lists only
+    Level3/Level4 the then-documented default passes and the code's default is refused. *)
 Theorem c20_docs_idporten_acr_refuted : exists r d,
-  cf_boot (cf_resolve_doc r) d = None /\ cf_run r d = Zpos cf_E_acr.
+  cf_boot cf_cur (cf_resolve_doc cf_docs_before r) d = None /\ cf_run cf_cur r d = Zpos cf_E_acr.
 Proof.
   exists cf_ex_idporten, cf_ex_disc_old. destruct cf_docs_idporten_acr_refuted as (H1 & H2 & _). split; assumption.
 Qed.
 Print Assumptions c20_docs_idporten_acr_refuted.
-
-(** Where the documentation's view of the channels coincides with the code's, the resolved configurations are equal. *)
-Theorem c20_docs_view_agrees : forall r,
-  cf_r_az_docjwk r = cf_r_az_jwk r ->
-  (cf_provider_of (cf_resolve_all r) = CfIDPorten -> cf_acr_defaulted r = false) ->
-  cf_resolve_doc r = cf_resolve_all r.
-Proof. exact cf_docs_view_same. Qed.
-Print Assumptions c20_docs_view_agrees.
 
 (** Channel precedence: flag (even empty) > WONDERWALL_ variable (non-empty) > provider variable (non-empty) > default. *)
 Theorem c20_channel_precedence : forall dflt s p,
@@ -151,48 +188,58 @@ Print Assumptions c20_channel_precedence.
 
 (** Non-vacuity: configurations of the three modes that start (and hence satisfy the hypotheses above), and
     inhabitants of the hypotheses of the conditional theorems. *)
-Example c20_nonvacuous_standalone : cf_starts cf_ex_good cf_ex_disc = true.
+Example c20_nonvacuous_standalone : cf_starts cf_cur cf_ex_good cf_ex_disc = true.
 Proof. exact cf_ex_good_starts. Qed.
-Example c20_nonvacuous_sso_server : cf_starts cf_ex_server cf_ex_disc = true.
+Example c20_nonvacuous_sso_server : cf_starts cf_cur cf_ex_server cf_ex_disc = true.
 Proof. exact cf_ex_server_starts. Qed.
-Example c20_nonvacuous_sso_proxy : forall d, cf_starts cf_ex_proxy d = true.
+Example c20_nonvacuous_sso_proxy : forall d, cf_starts cf_cur cf_ex_proxy d = true.
 Proof. exact cf_ex_proxy_starts. Qed.
 Example c20_nonvacuous_not_blank : ~ cf_key_blank (cf_resolve_all cf_ex_good).
 Proof. intros [_ H]. vm_compute in H. discriminate. Qed.
 Example c20_nonvacuous_insecure :
-  cf_starts (cf_ex_standalone (bs "http://localhost:8080"%string) cf_ex_key32 (cf_tfl false) cf_tabs cf_tabs) cf_ex_disc = true.
+  cf_starts cf_cur (cf_ex_standalone (bs "http://localhost:8080"%string) cf_ex_key32 (cf_tfl false) cf_tabs cf_tabs) cf_ex_disc = true.
 Proof. vm_compute. reflexivity. Qed.
-Example c20_nonvacuous_documented : cf_typed_ok cf_ex_good /\ cf_rules_doc (cf_resolve_all cf_ex_good) cf_ex_disc /\
-  cf_rule_routes (cf_resolve_all cf_ex_good).
-Proof.
-  destruct (cf_starts_sound _ _ cf_ex_good_starts c20_nonvacuous_not_blank) as [H1 H2].
-  pose proof (proj1 (cf_starts_iff _ _) cf_ex_good_starts) as (_ & _ & _ & H3). auto.
-Qed.
+Example c20_nonvacuous_documented : cf_typed_ok cf_ex_good /\ cf_rules_doc (cf_resolve_all cf_ex_good) cf_ex_disc.
+Proof. exact (proj1 (cf_starts_iff_doc _ _) cf_ex_good_starts). Qed.
 Example c20_nonvacuous_malformed :
-  cf_starts (cf_ex_standalone (bs "https://a.example.com"%string) cf_ex_key32 cf_tabs (mk_cf_tsrc CfBad CfAbsent) cf_tabs)
+  cf_starts cf_cur (cf_ex_standalone (bs "https://a.example.com"%string) cf_ex_key32 cf_tabs (mk_cf_tsrc CfBad CfAbsent) cf_tabs)
             cf_ex_disc = false.
 Proof. vm_compute. reflexivity. Qed.
 
-(** The ingress acceptance of this model and of the ingress model used by C04/C14 (Model/Redirect.v) coincide. *)
-Theorem c20_ingress_model_agrees : forall s, cf_parse_ingress s = None <-> exists u, Model.Redirect.parse_ingress s = Some u.
+(** The ingress acceptance of this model and of the ingress model used by C04/C14 (Model/Redirect.v) coincide, up to
+    the pattern-character rule of the current code (which Model/Redirect.v does not have). *)
+Theorem c20_ingress_model_agrees : forall v s,
+  cf_parse_ingress v s = None <->
+  exists u, Model.Redirect.parse_ingress s = Some u /\ (cf_v_ingress_strict v = true -> cf_has_pattern (u_path u) = false).
 Proof. exact cf_parse_ingress_agrees. Qed.
 Print Assumptions c20_ingress_model_agrees.
 
 (** The key rule on well-formed input: every standard base64 encoding of 32 bytes (43 alphabet characters followed by
     '=') passes, every 44-character unpadded-quantum string (33 bytes) is refused for its length. *)
-Theorem c20_key_256_bits_accepted : forall s c1 c2 c3,
+Theorem c20_key_256_bits_accepted : forall v s c1 c2 c3,
   length s = 40%nat -> forallb cf_b64_char (s ++ [c1; c2; c3]) = true ->
-  cf_key_check (s ++ [c1; c2; c3; 61%N]) = None /\ cf_b64_len (s ++ [c1; c2; c3; 61%N]) = Some 32%N.
+  cf_key_check v (s ++ [c1; c2; c3; 61%N]) = None /\ cf_b64_len (s ++ [c1; c2; c3; 61%N]) = Some 32%N.
 Proof.
-  intros s c1 c2 c3 Hl Hv. split; [exact (cf_key32_accepted s c1 c2 c3 Hl Hv)|].
+  intros v s c1 c2 c3 Hl Hv. split; [exact (cf_key32_accepted s c1 c2 c3 Hl Hv v)|].
   exact (cf_b64_len_padded1 10 s c1 c2 c3 Hl Hv).
 Qed.
 Print Assumptions c20_key_256_bits_accepted.
 
-Theorem c20_key_264_bits_refused : forall s,
-  length s = 44%nat -> forallb cf_b64_char s = true -> cf_key_check s = Some cf_E_key_length.
-Proof. exact cf_key33_refused. Qed.
+Theorem c20_key_264_bits_refused : forall v s,
+  length s = 44%nat -> forallb cf_b64_char s = true -> cf_key_check v s = Some cf_E_key_length.
+Proof. intros v s Hl Hv. exact (cf_key33_refused s Hl Hv v). Qed.
 Print Assumptions c20_key_264_bits_refused.
 
-Example c20_nonvacuous_key : cf_key_check cf_ex_key32 = None /\ length cf_ex_key32 = 44%nat.
+Example c20_nonvacuous_key : cf_key_check cf_cur cf_ex_key32 = None /\ length cf_ex_key32 = 44%nat.
 Proof. vm_compute. split; reflexivity. Qed.
+
+(** Non-vacuity of the statements about blank keys and pattern paths: a line feed is a blank key; the current code
+    refuses it, refuses /x*y and /{id}, and accepts a plain path. *)
+Example c20_nonvacuous_blank : ([10%N] : bytes) <> [] /\ cf_b64_len [10%N] = Some 0%N /\
+  cf_key_check cf_cur [10%N] = Some cf_E_key_length /\ cf_key_check cf_old [10%N] = None.
+Proof. repeat split; try discriminate; vm_compute; reflexivity. Qed.
+Example c20_nonvacuous_pattern :
+  cf_parse_ingress cf_cur (bs "https://a.example.com/{id}"%string) = Some cf_E_ing_pattern /\
+  cf_parse_ingress cf_old (bs "https://a.example.com/{id}"%string) = None /\
+  cf_parse_ingress cf_cur (bs "https://a.example.com/app/"%string) = None.
+Proof. repeat split; vm_compute; reflexivity. Qed.
